@@ -340,7 +340,10 @@ def run(chk):
 
 CXX_OPTSETS = [("default", []), ("namespaces", ["--enable-cxx-namespaces"]), ("merge-sort", ["--merge-extern-blocks", "--sort-semantically"]),
                ("ns-merge", ["--enable-cxx-namespaces", "--merge-extern-blocks"]), ("old-target", ["--rust-target", "1.70"]),
-               ("no-layout", ["--no-layout-tests", "--with-derive-default"])]
+               ("no-layout", ["--no-layout-tests", "--with-derive-default"]),
+               # --override-abi names members by their unqualified C++ name (methods, static methods, constructors by the class name)
+               ("override-members", ["--override-abi", "m[0-9]|get|type|match|K[0-9]=C-unwind"]),
+               ("override-members-ns", ["--enable-cxx-namespaces", "--override-abi", "m[0-9]|set|drop|clone|self_=C-unwind", "--merge-extern-blocks"])]
 
 
 def cxx_case(chk, i):
@@ -467,8 +470,15 @@ def cxx_case(chk, i):
                     obs["cxx_unbound"] += 1
                     continue
                 obs["cxx_bound"] += 1
-                if r["abi"] != "C":
-                    problems.append("%s declared with abi %s" % (hcxx.demangled(k, m), r["abi"]))
+                want_abi = "C"
+                if "--override-abi" in flags:
+                    pat_, ab_ = flags[flags.index("--override-abi") + 1].rsplit("=", 1)
+                    cxx_name = k.name if m.kind == "ctor" else m.name
+                    if m.kind != "dtor" and re.fullmatch(pat_, cxx_name):
+                        want_abi = ab_
+                    obs["cxx_override_abi_checked"] = obs.get("cxx_override_abi_checked", 0) + 1
+                if r["abi"] != want_abi:
+                    problems.append("%s declared with abi %s, expected %s" % (hcxx.demangled(k, m), r["abi"], want_abi))
                 if m.kind == "method" and not m.static and not m.virtual:
                     obs["cxx_receiver_constness_checked"] += 1
                     want_recv = "* const" if m.const else "* mut"
